@@ -39,6 +39,7 @@ type gPlan struct {
 	llen map[int]int      // List slot -> length
 	alt  map[int]int      // reference slot -> alternative of the referenced non-terminal
 	sub  map[int]*gChoice // reference slot -> a fully planned derivation
+	last map[int]int      // reference slot inside a List -> alternative used for the LAST element (of a list with >= 2 elements)
 	max  bool             // unmentioned Opts present, unmentioned Lists one longer than their minimum
 }
 
@@ -54,6 +55,7 @@ type gDeriv struct {
 	rnd    *rng
 	budget int
 	avoid  map[string]bool // random stream: alternatives ("rule/alt") and identifiers not to pick
+	inLast bool            // deriving the last element of a list with >= 2 elements (gPlan.last applies)
 }
 
 func (d *gDeriv) rule(r *gRule, depth int) {
@@ -87,6 +89,12 @@ func (d *gDeriv) seq(seq []gSym, p *gPlan, depth int, first bool) {
 			d.out = append(d.out, gTok{s.text, s.sig, s.kw, s.glueL, s.glueR})
 		case gRef:
 			r := d.g.rules[s.text]
+			if p != nil && d.inLast {
+				if k, ok := p.last[s.slot]; ok {
+					d.alt(r.alts[k], nil, depth+1)
+					continue
+				}
+			}
 			if p != nil && first {
 				if c := p.sub[s.slot]; c != nil {
 					d.alt(c.alt, c.plan, depth+1)
@@ -132,7 +140,10 @@ func (d *gDeriv) seq(seq []gSym, p *gPlan, depth int, first bool) {
 				if j > 0 {
 					d.seq(s.sep, p, depth, false)
 				}
+				saved := d.inLast
+				d.inLast = j > 0 && j == n-1
 				d.seq(s.body, p, depth, first && j == 0)
+				d.inLast = saved
 			}
 		}
 	}
@@ -244,6 +255,16 @@ func (g *grammar) contexts(isRoot func(*gRule) bool) map[*gRule]*gCtx {
 }
 
 // force makes slot (and the Opts / Lists around it) present in plan p of alternative a.
+// gEnclosingList: the innermost List slot that contains the slot, or -1.
+func gEnclosingList(a *gAlt, slot int) int {
+	for s := a.slots[slot].parent; s >= 0; s = a.slots[s].parent {
+		if a.slots[s].sym.kind == gList {
+			return s
+		}
+	}
+	return -1
+}
+
 func gForce(a *gAlt, p *gPlan, slot int) {
 	for s := slot; s >= 0; s = a.slots[s].parent {
 		sym := a.slots[s].sym
@@ -408,6 +429,22 @@ func gSentencesOf(g *grammar, tier string, seed uint64) ([]gSentence, map[string
 						p := &gPlan{alt: map[int]int{s: child.cycle + (start+j)%special}}
 						gForce(a, p, s)
 						e.emit(a, p, prod)
+					}
+					// a name inside a LIST of names: every back-quoted keyword-like word as the last of two elements (a word that ends
+					// the list when it is read as a keyword must not do so when it is a quoted name, nor after SQL() printed it)
+					if l := gEnclosingList(a, s); l >= 0 {
+						for k, ca := range child.alts {
+							if len(ca.seq) == 1 && strings.HasPrefix(ca.seq[0].text, "`") && gIsKeywordLike(strings.Trim(ca.seq[0].text, "`")) {
+								slotNo++
+								if !thorough && slotNo%2 != int(seed%2) {
+									continue
+								}
+								p := &gPlan{last: map[int]int{s: k}}
+								gForce(a, p, s)
+								p.llen[l] = max(a.slots[l].sym.min, 2)
+								e.emit(a, p, prod)
+							}
+						}
 					}
 				case thorough && len(child.alts) > 1:
 					for k, ca := range child.alts {
